@@ -29,6 +29,9 @@ pub enum Dev {
     RowPair { k: usize, in_closure: bool, d: Sc },
     /// left and right wire of one gate off by +d and -d, output recomputed consistently (l*r)
     GateLR { at: usize, gate: usize, d: Sc },
+    /// constraint row k shifted by +d and the output of gate `gate` off by s*d (s = +1 / -1):
+    /// errors that cancel if a row and a gate equation shared a weight
+    RowGate { k: usize, at: usize, gate: usize, neg: bool, d: Sc },
 }
 
 pub fn deltas(i: usize) -> Sc {
@@ -83,6 +86,18 @@ pub fn enumerate_devs<G: AffineRepr>(prog: &Program, honest: &crate::interp::cur
         }
     }
     let n1 = honest.st.model.n1();
+    {
+        let nrows = prog.constrain_sites().len();
+        for k in 0..nrows.min(2) {
+            for gate in 0..honest.st.model.gates().min(2) {
+                let end = if gate < n1 { top.saturating_sub(1) } else { total.saturating_sub(1) };
+                for neg in [false, true] {
+                    v.push(Dev::RowGate { k, at: end, gate, neg, d: deltas(di) });
+                }
+                di += 1;
+            }
+        }
+    }
     for gate in 0..honest.st.model.gates() {
         let end = if gate < n1 { top.saturating_sub(1) } else { total.saturating_sub(1) };
         for comp in 0..3u8 {
@@ -121,6 +136,10 @@ fn run_case<G: AffineRepr>(env: &Env<G>, c: &Case) -> CaseOut {
             Dev::RowPair { k, d, .. } => {
                 let neg = Sc::Mul(Box::new(Sc::I(-1)), Box::new(d.clone()));
                 (prog.with_row_shift(*k, d.clone()).with_row_shift(*k + 1, neg), vec![], "row-pair(+d,-d)")
+            }
+            Dev::RowGate { k, at, gate, neg, d } => {
+                let dd = if *neg { Sc::Mul(Box::new(Sc::I(-1)), Box::new(d.clone())) } else { d.clone() };
+                (prog.with_row_shift(*k, d.clone()), vec![Fault::Gate { at: *at, gate: *gate, comp: 2, d: dd }], "row+d,gate-out±d")
             }
             Dev::GateLR { at, gate, d } => {
                 // l' = l + d, r' = r - d, o' = l' * r'  (gate equation holds, both wiring rows are off)
@@ -162,7 +181,7 @@ fn run_case<G: AffineRepr>(env: &Env<G>, c: &Case) -> CaseOut {
         }
         let phase = match dev {
             Dev::Row { in_closure, .. } | Dev::RowPair { in_closure, .. } => if *in_closure { "p2" } else { "p1" },
-            Dev::GateLR { gate, .. } => if *gate < m.n1() { "p1" } else { "p2" },
+            Dev::GateLR { gate, .. } | Dev::RowGate { gate, .. } => if *gate < m.n1() { "p1" } else { "p2" },
             Dev::Witness(Fault::Gate { gate, .. }) => if *gate < m.n1() { "p1" } else { "p2" },
             Dev::Witness(Fault::Alloc { at, .. }) => if *at < prog.ops.len() { "p1" } else { "p2" },
             _ => "p1",
